@@ -41,10 +41,11 @@ def main(argv):
             for mode in (("sync", "async") if thorough or rng.random() < 0.5 else (rng.choice(["sync", "async"]),)):
                 ks = {"md5": 16, "sha1": 20}.get(auth, 16)
                 akey = (gen.rbytes(rng, rng.choice([8, 12, 30]), False) if kt == 0 else gen.rbytes(rng, rng.choice([ks, ks - 3, ks + 4]), False)).hex()
-                pkey = (gen.rbytes(rng, rng.choice([8, 16]), False) if kt == 0 else gen.rbytes(rng, rng.choice([ks, 16, ks + 2]), False)).hex()
+                pkt = rng.choice([0, 1, 2])        # the privacy key's type is independent of the auth key's
+                pkey = (gen.rbytes(rng, rng.choice([8, 16]), False) if pkt == 0 else gen.rbytes(rng, rng.choice([ks, 16, ks + 2]), False)).hex()
                 eng = (b"\x80\x00\x1f\x88" + gen.rbytes(rng, rng.choice([1, 5, 13, 28]), False)).hex()
                 v3 = {"user": "user%d" % rng.randrange(100), "auth": [auth, kt, akey] if auth else None,
-                      "priv": [priv, kt, pkey] if priv else None, "engine_id": eng if given else None, "agent_engine_id": eng,
+                      "priv": [priv, pkt, pkey] if priv else None, "engine_id": eng if given else None, "agent_engine_id": eng,
                       "boots": rng.randrange(2 ** 31), "time": rng.randrange(2 ** 31)}
                 steps = [{"op": "enter", "default_reply": {"pdu_tag": 0xA8, "mac": "absent", "encrypt": "no", "flags": 0,
                                                            "boots": v3["boots"], "time": v3["time"]}}]
@@ -125,7 +126,7 @@ def main(argv):
             if n <= 2:
                 c.sample({"config": label, "probes": len(probes), "requests_checked": len(rec["steps"]) - 1})
     return c.finish(
-        rule="%d sessions: {noAuth, MD5, SHA-1} x {none, DES, AES} x {password, master, localized keys of aligned and unaligned sizes} x {engine id "
+        rule="%d sessions: {noAuth, MD5, SHA-1} x {none, DES, AES} x {password, master, localized keys of aligned and unaligned sizes, auth and privacy key types chosen independently} x {engine id "
              "given, discovered} x {sync, async}, agent engine ids of 5..32 octets, boots/time 0..2^31-1 changing after every reply; each "
              "session: refresh then 4..6 requests, each checked for engine id, boots/time, user, MAC and decryptability; all distinct and non-trivial" % n,
         extra={"sessions": n, "traces_validated_against_impl": n})
